@@ -71,28 +71,72 @@ def _draw_chunk(rng: random.Random, n: int) -> int:
     return max(1, min(c, n)) if c != 1 or n <= 10 else rng.choice([2, 3, 5])
 
 
+# whole-world, pole-containing and pole-centred grids (explicit source and destination)
+GLOBAL_TEMPLATES = {
+    "polar-src": ({"crs": 3413, "aff": [5000.0, 0.0, -20000.0, 0.0, -5000.0, 20000.0], "shape": [8, 8]}, {"crs": 4326, "aff": [10.0, 0.0, -180.0, 0.0, -0.04, 90.0], "shape": [10, 36]}),
+    "global-src-3031": ({"crs": 4326, "aff": [4.0, 0.0, -180.0, 0.0, -4.0, 90.0], "shape": [45, 90]}, {"crs": 3031, "aff": [200000.0, 0.0, -3000000.0, 0.0, -200000.0, 3000000.0], "shape": [30, 30]}),
+    "global-src-3413": ({"crs": 4326, "aff": [4.0, 0.0, -180.0, 0.0, -4.0, 90.0], "shape": [45, 90]}, {"crs": 3413, "aff": [200000.0, 0.0, -3000000.0, 0.0, -200000.0, 3000000.0], "shape": [30, 30]}),
+    "world-dst": ({"crs": 32633, "aff": [10.0, 0.0, 500000.0, 0.0, -10.0, 6000000.0], "shape": [4, 4]}, {"crs": 4326, "aff": [4.0, 0.0, -180.0, 0.0, -4.0, 90.0], "shape": [45, 90]}),
+    "world-dst-lat84": ({"crs": 32633, "aff": [10.0, 0.0, 500000.0, 0.0, -10.0, 6000000.0], "shape": [4, 4]}, {"crs": 4326, "aff": [4.0, 0.0, -180.0, 0.0, -4.0, 84.0], "shape": [42, 90]}),
+    "hemisphere-dst": ({"crs": 32633, "aff": [10.0, 0.0, 500000.0, 0.0, -10.0, 6000000.0], "shape": [4, 4]}, {"crs": 4326, "aff": [2.0, 0.0, -30.0, 0.0, -2.0, 80.0], "shape": [30, 45]}),
+}
+
+
+def global_cause(src: dict, dst: dict, dst_chunks: Any) -> Optional[str]:
+    """Names the one geometric circumstance of a whole-world / polar pair that the tile-overlap
+    computation is known not to handle (known findings D13g, D13h); None for ordinary pairs."""
+    polar = {3413, 3031}
+    for g, other in ((src, dst), (dst, src)):
+        if "aff" not in g:
+            return None
+        a, b, c, d, e, f = _affine(g["aff"])[:6]
+        ny, nx = g["shape"]
+        xs, ys = sorted([c, c + a * nx + b * ny]), sorted([f, f + d * nx + e * ny])
+        if g["crs"] in polar and xs[0] < 0 < xs[1] and ys[0] < 0 < ys[1]:
+            return "pole-in-footprint"  # polar stereographic grid with the pole inside
+        if g["crs"] == 4326 and other["crs"] in polar and (ys[1] >= 90 - 1e-9 or ys[0] <= -90 + 1e-9):
+            return "pole-in-footprint"  # lon/lat grid reaching a pole, paired with a polar stereographic grid
+    if dst["crs"] == 4326 and src["crs"] != 4326:
+        a = abs(_affine(dst["aff"])[0])
+        if min(int(dst_chunks[1]), dst["shape"][1]) * a >= 360 - 1e-9:
+            return "world-extent-tile"
+    return None
+
+
 def generate(rng: random.Random, tier: str) -> dict:
     # pylint: disable=too-many-locals,too-many-branches,too-many-statements
     mode = rng.choice(["same-exact"] * 5 + ["same-inexact"] * 2 + ["same-rotated"] * 2 + ["cross"] * 4)
+    if rng.random() < 0.04:
+        mode = "cross-global"
     sides = [1, 2, 3, 5, 8, 13, 16, 17, 24, 31, 48] + ([64, 96] if tier == "thorough" else [])
     sny, snx = rng.choice(sides), rng.choice(sides)
+    g_tpl = rng.choice(sorted(GLOBAL_TEMPLATES))
+    if mode == "cross-global":
+        sny, snx = GLOBAL_TEMPLATES[g_tpl][0]["shape"]
     sch = [_draw_chunk(rng, sny), _draw_chunk(rng, snx)]
     dtype = rng.choice(["uint8", "int8", "uint16", "int16", "int32", "float32", "float64", "bool"] * 4 + ["uint32", "int64"])
     kind = np.dtype(dtype).kind
     nd_cfg = rng.choice(["none", "none", "src", "dst", "both", "nan"])
     if nd_cfg == "nan" and kind != "f":
         nd_cfg = "none"
-    if dtype == "bool":
-        nd_cfg = "none"
     src_nd = dst_nd = None
     if nd_cfg in ("src", "both"):
         src_nd = rng.choice([0, 100, 120] if dtype != "uint8" else [0, 250, 255])
     if nd_cfg in ("dst", "both"):
         dst_nd = rng.choice([99, 0, 7] if dtype != "int8" else [99, -3])
+    if dtype == "bool" and nd_cfg != "none":
+        # two values only: the data is whatever the nodata value is not
+        b = rng.choice([0, 1, 1])
+        src_nd, dst_nd = (b if src_nd is not None else None), (b if dst_nd is not None else None)
     if nd_cfg == "nan":
         src_nd = "nan"
-    tdim = rng.choice([0, 0, 0, 1, 2, 3])
-    bdim = rng.choice([2, 3]) if (tdim == 0 and rng.random() < 0.06) else 0  # trailing band axis instead
+    tdim = rng.choice([0, 0, 0, 1, 2, 3, 3, 4])
+    bdim = rng.choice([2, 3, 4]) if (tdim == 0 and rng.random() < 0.08) else 0  # trailing band axis instead
+    # explicit, irregular chunk sizes along the non-spatial axis (what concatenation or slicing leaves behind)
+    ns_irregular = None
+    n_ns = tdim or bdim
+    if n_ns >= 3 and rng.random() < 0.4:
+        ns_irregular = rng.choice({3: [[1, 2]], 4: [[1, 3], [1, 1, 2], [1, 2, 1], [2, 1, 1]]}[n_ns])
     resampling = "nearest" if rng.random() < 0.8 else rng.choice(["bilinear", "cubic", "average", "mode"])
     if dtype == "bool" or dtype == "int8":
         resampling = "nearest" if rng.random() < 0.9 else resampling
@@ -192,6 +236,8 @@ def generate(rng: random.Random, tier: str) -> dict:
             dst_aff = ["rot", ang, dps, dox, doy, dnx, dny]
         src = {"crs": crs, "aff": src_aff, "shape": [sny, snx]}
         dst = {"crs": crs, "aff": dst_aff, "shape": [dny, dnx]}
+    elif mode == "cross-global":
+        src, dst = copy.deepcopy(GLOBAL_TEMPLATES[g_tpl])
     else:
         s_crs, d_crs = rng.sample(sorted(CRS_POOL), 2)
         x0, y0, ps = CRS_POOL[s_crs]
@@ -203,6 +249,8 @@ def generate(rng: random.Random, tier: str) -> dict:
             "derive": {"place": place, "zoom": rng.choice([1.0, 1.0, 0.5, 1.7, 3.0]), "pad": [rng.randrange(0, 8) for _ in range(4)], "k": rng.choice([2, 3, 30])},
         }
     dch = [rng.choice([1, 2, 3, 5, 7, 16, 64]), rng.choice([1, 2, 3, 5, 7, 16, 64])]
+    if mode == "cross-global":
+        dch = list(rng.choice([[45, 90], [45, 45], [5, 90], [15, 30], [10, 36], [30, 30], [7, 16]]))
     tch = rng.choice([1, max(tdim, 1)])
     src_irregular = None
     if rng.random() < 0.12 and sny >= 4 and snx >= 4:
@@ -245,6 +293,7 @@ def generate(rng: random.Random, tier: str) -> dict:
         "src_chunks": sch,
         "dst_chunks": dch,
         "time_chunk": tch,
+        "ns_irregular": ns_irregular,
         "src_irregular": src_irregular,
         "dst_default": dst_default,
         "dask": [
@@ -259,6 +308,8 @@ def generate(rng: random.Random, tier: str) -> dict:
             for _ in range(2)
         ],
         "uuid_seed": rng.getrandbits(32),
+        # same values in the other byte order (what netCDF / FITS readers hand out)
+        "big_endian_input": bool(np.dtype(dtype).itemsize > 1 and rng.random() < 0.06),
     }
     return {"config": config, "workload": {"src": src, "dst": dst}}
 
@@ -345,7 +396,8 @@ def make_data(shape: Tuple[int, ...], dtype: str, avoid: List[Any]) -> np.ndarra
     n = int(np.prod(shape))
     dt = np.dtype(dtype)
     if dt.kind == "b":
-        return np.ones(shape, dtype=dt)
+        fv = [a for a in avoid if a is not None]
+        return np.zeros(shape, dtype=dt) if (fv and bool(fv[-1])) else np.ones(shape, dtype=dt)
     if dt.kind == "f":
         vals = (np.arange(n, dtype="float64") * 1.25 + 1.5).astype(dt)
     else:
@@ -404,6 +456,10 @@ def execute(record: dict, rng: Optional[random.Random]) -> Outcome:
         "irregular_source_chunks": 0,
         "default_destination_chunks": 0,
         "trailing_band_axis": 0,
+        "irregular_nonspatial_chunks": 0,
+        "big_endian_input": 0,
+        "global_or_polar_pairs": 0,
+        "global_pairs_raising": 0,
         "extreme_zoom_in": 0,
     }
     dtype = cfg["dtype"]
@@ -437,13 +493,20 @@ def execute(record: dict, rng: Optional[random.Random]) -> Outcome:
             irr = tuple(tuple(c) for c in cfg["src_irregular"])
             sch = irr if not tdim else ((cfg["time_chunk"],) * (tdim // cfg["time_chunk"]) + ((tdim % cfg["time_chunk"],) if tdim % cfg["time_chunk"] else ()), *irr)
             probes["irregular_source_chunks"] = 1
-        xn = wrap_xr(data, s_gbox, nodata=src_nd, time=time)
+        if cfg.get("ns_irregular") and sum(cfg["ns_irregular"]) == (tdim or bdim):
+            sch = (*sch[:-1], tuple(cfg["ns_irregular"])) if bdim else (tuple(cfg["ns_irregular"]), *sch[1:])
+            probes["irregular_nonspatial_chunks"] = 1
+        feed = data
+        if cfg.get("big_endian_input"):
+            feed = data.astype(data.dtype.newbyteorder(">"))
+            probes["big_endian_input"] = 1
+        xn = wrap_xr(feed.copy(), s_gbox, nodata=src_nd, time=time)
         kw: Dict[str, Any] = {"resampling": cfg["resampling"]}
         if dst_nd is not None:
             kw["dst_nodata"] = dst_nd
         ref = xr_reproject(xn, d_gbox, **kw).values
         for rep, dcfg in enumerate(cfg["dask"]):
-            xd = wrap_xr(da.from_array(data.copy(), chunks=sch, name=f"src{rep}-{cfg['uuid_seed']:032x}"), s_gbox, nodata=src_nd, time=time)
+            xd = wrap_xr(da.from_array(feed.copy(), chunks=sch, name=f"src{rep}-{cfg['uuid_seed']:032x}"), s_gbox, nodata=src_nd, time=time)
             if cfg.get("dst_default"):
                 rd = xr_reproject(xd, d_gbox, **kw)
                 probes["default_destination_chunks"] = 1
@@ -484,7 +547,9 @@ def execute(record: dict, rng: Optional[random.Random]) -> Outcome:
     except Deadlock as e:
         raise HarnessError(f"C13: {e}") from e
     except Exception as e:  # pylint: disable=broad-except
-        v = exc_to_violation(PROP, "O13.3" if _is_disjoint(src, dst) else "O13.6", e, extra={"mode": cfg["mode"], "disjoint": _is_disjoint(src, dst)})
+        v = exc_to_violation(PROP, "O13.3" if _is_disjoint(src, dst) else "O13.6", e, extra={"mode": cfg["mode"], "disjoint": _is_disjoint(src, dst), "cause": global_cause(src, dst, cfg["dst_chunks"])})
+        if cfg["mode"] == "cross-global":
+            probes["global_pairs_raising"] = 1
 
     if v is None:
         assert ref is not None
@@ -493,8 +558,10 @@ def execute(record: dict, rng: Optional[random.Random]) -> Outcome:
         log.add("result", o.shape, str(o.dtype), _hash_arr(o))
     if _dst_px_in_src_px(src, dst) < 1 / 400:
         probes["extreme_zoom_in"] = 1
-    if cfg["mode"] == "cross":
+    if cfg["mode"] in ("cross", "cross-global"):
         probes["cross_crs_runs"] = 1
+    if cfg["mode"] == "cross-global":
+        probes["global_or_polar_pairs"] = 1
     if cfg["mode"] == "same-rotated":
         probes["rotated_runs"] = 1
     for s in sims:
@@ -580,7 +647,8 @@ def check(cfg, src, dst, ref: np.ndarray, outs: List[np.ndarray], fv, probes) ->
     for o in outs:
         if o.shape != ref.shape:
             return Violation(PROP, "O13.1", "shape-differs", {"chunked": list(o.shape), "memory": list(ref.shape)})
-        if o.dtype != ref.dtype or str(o.dtype) != dtype:
+        nat = lambda d: np.dtype(d).newbyteorder("=")  # noqa: E731  (byte order is representation, not value)
+        if nat(o.dtype) != nat(ref.dtype) or str(nat(o.dtype)) != dtype:
             return Violation(PROP, "O13.1", "dtype-differs", {"chunked": str(o.dtype), "memory": str(ref.dtype), "want": dtype})
     # O13.4 schedule independence
     if not np.array_equal(a, b, equal_nan=(a.dtype.kind == "f")):
@@ -683,10 +751,10 @@ def candidates(record: dict) -> Iterable[dict]:
         c = copy.deepcopy(record)
         c["config"]["bdim"] = 0
         yield c
-    for k in ("src_irregular", "dst_default"):
+    for k in ("src_irregular", "dst_default", "ns_irregular", "big_endian_input"):
         if cfg.get(k):
             c = copy.deepcopy(record)
-            c["config"][k] = None if k == "src_irregular" else False
+            c["config"][k] = False if k in ("dst_default", "big_endian_input") else None
             yield c
     for k, simple in (("resampling", "nearest"), ("dst_nodata", None), ("src_nodata", None), ("dtype", "uint8"), ("dtype", "float32"), ("time_chunk", 1)):
         if cfg.get(k) != simple:
